@@ -5,7 +5,7 @@ from . import sweeps
 def run(ctx):
     rep = ctx.report
     rep.rule = ("derive_session_event (built without LLTD_TESTING) on harness-built Discovers: every count 1..240 x every "
-                "position of the own address (and absent) x 12 session-table variants (incl. sessions already marked complete), each variant again after the clock moved on by "
+                "position of the own address (and absent) x 17 session-table variants (incl. sessions already marked complete, known sequence numbers 1, 0x7fff, 0x8000, 0x8001, 0xffff apart and bit-flipped), each variant again after the clock moved on by "
                 "59 s, 60 s, 61 s, 62 s, 1 h and 2^33 ms since the sessions were recorded (no expiry tick in between), plus all 256 opcodes x both Reset "
                 "destinations; non-trivial = own address present (recognition needed) or opcode classification case")
     rep.assumptions = ["station list = consecutive 6-byte addresses at offset 36 (MS-LLTD)",
